@@ -1,2 +1,539 @@
-//! C07 workload (under construction).
-fn main() {}
+//! C07 — integer conversions: primitives / limb slices / other-width Uint into
+//! Uint and back, in their try/from/wrapping/saturating forms.
+
+use num_bigint::{BigInt, BigUint};
+use num_traits::{Signed, ToPrimitive, Zero};
+use ruint::{FromUintError, ToUintError, Uint, UintTryFrom, UintTryTo};
+use vmon::{an, au, big, gen, uint, Arg, Mon};
+
+vmon::widths!(exec; 0, 1, 2, 3, 7, 8, 9, 15, 16, 17, 31, 32, 33, 60, 63, 64, 65, 100, 127, 128, 129, 192,
+    250, 255, 256, 257, 384, 512, 1024, 4096);
+
+/// v mod 2^bits as limbs, for any signed v.
+fn wrap_signed(v: &BigInt, bits: usize) -> Vec<u64> {
+    let m = BigInt::from(big::p2(bits));
+    let r = ((v % &m) + &m) % &m;
+    big::limbs(&r.to_biguint().unwrap(), gen::nlimbs(bits))
+}
+
+macro_rules! from_prim {
+    ($m:ident, $a:ident, $B:ident, $L:ident, $t:ty, $v:expr, $src_bits:expr) => {{
+        type U<const B: usize, const L: usize> = Uint<B, L>;
+        let v: $t = $v;
+        let bv: BigInt = BigInt::from(v);
+        let neg = bv.is_negative();
+        let fits = !neg && big::fits(&bv.to_biguint().unwrap(), $B);
+        let wrapped = wrap_signed(&bv, $B);
+        $m.nontrivial(bv != BigInt::from(0) && bv != BigInt::from(1));
+        $m.obs(|| format!("source={bv} fits={fits} wrapped={}", big::hex(&wrapped)));
+        if let Some(r) = $m.must_in("try_from", || U::<$B, $L>::try_from(v)) {
+            match r {
+                Ok(x) => {
+                    if $m.eq("try_from.ok", &true, &fits) {
+                        $m.eq_uint("try_from.value", &x, &wrapped);
+                    }
+                }
+                Err(ToUintError::ValueTooLarge(b, x)) => {
+                    $m.check(!fits && !neg, "try_from.err-kind", || format!("fits={fits} negative={neg}"), || "ValueTooLarge".into());
+                    $m.eq("try_from.err-bits", &b, &$B);
+                    $m.eq_uint("try_from.too-large-payload", &x, &wrapped);
+                }
+                Err(ToUintError::ValueNegative(b, x)) => {
+                    $m.check(neg, "try_from.err-kind", || format!("fits={fits} negative={neg}"), || "ValueNegative".into());
+                    $m.eq("try_from.err-bits", &b, &$B);
+                    if $B <= $src_bits {
+                        $m.eq_uint("try_from.negative-payload", &x, &wrapped);
+                    } else {
+                        $m.canonical(&x);
+                    }
+                }
+                Err(ToUintError::NotANumber(_)) => $m.fail("try_from.err-kind", "integer source", "NotANumber"),
+            }
+        }
+        if fits {
+            if let Some(x) = $m.must_in("from", || U::<$B, $L>::from(v)) {
+                $m.eq_uint("from", &x, &wrapped);
+            }
+        } else {
+            $m.must_panic(|| U::<$B, $L>::from(v), "value not representable");
+        }
+        if let Some(x) = $m.must_in("wrapping_from", || U::<$B, $L>::wrapping_from(v)) {
+            if !neg || $B <= $src_bits {
+                $m.eq_uint("wrapping_from", &x, &wrapped);
+            } else {
+                $m.canonical(&x);
+            }
+        }
+        if let Some(x) = $m.must_in("saturating_from", || U::<$B, $L>::saturating_from(v)) {
+            let e = if fits { wrapped.clone() } else if neg { gen::zero($B) } else { gen::max($B) };
+            $m.eq_uint("saturating_from", &x, &e);
+        }
+    }};
+}
+
+macro_rules! to_prim {
+    ($m:ident, $x:ident, $bv:ident, $B:ident, $t:ty, $name:literal) => {{
+        // value fits the target iff 0 <= v <= T::MAX; wrapped = v mod 2^Tbits (two's complement), saturated = MAX
+        let tmax = BigUint::from(<$t>::MAX as u128);
+        let fits = $bv <= tmax;
+        let low = ($bv.clone() % big::p2(<$t>::BITS as usize)).to_u128().unwrap();
+        let wrapped = low as $t;
+        if let Some(r) = $m.must_in(concat!($name, ".try_from_ref"), || <$t>::try_from(&$x)) {
+            match r {
+                Ok(v) => {
+                    if $m.eq(concat!($name, ".try.ok"), &true, &fits) {
+                        $m.eq(concat!($name, ".try.value"), &v, &wrapped);
+                    }
+                }
+                Err(FromUintError::Overflow(b, w, s)) => {
+                    $m.eq(concat!($name, ".try.err"), &true, &!fits);
+                    $m.eq(concat!($name, ".err-bits"), &b, &$B);
+                    $m.eq(concat!($name, ".err-wrapped"), &w, &wrapped);
+                    $m.eq(concat!($name, ".err-saturated"), &s, &<$t>::MAX);
+                }
+            }
+        }
+        if let Some(r) = $m.must_in(concat!($name, ".try_from_val"), || <$t>::try_from($x)) {
+            $m.eq(concat!($name, ".try_val.ok"), &r.is_ok(), &fits);
+        }
+        if fits {
+            if let Some(v) = $m.must_in(concat!($name, ".to"), || $x.to::<$t>()) {
+                $m.eq(concat!($name, ".to"), &v, &wrapped);
+            }
+        } else {
+            $m.must_panic(|| $x.to::<$t>(), "value does not fit target");
+        }
+        if let Some(v) = $m.must_in(concat!($name, ".wrapping_to"), || $x.wrapping_to::<$t>()) {
+            $m.eq(concat!($name, ".wrapping_to"), &v, &wrapped);
+        }
+        if let Some(v) = $m.must_in(concat!($name, ".saturating_to"), || $x.saturating_to::<$t>()) {
+            $m.eq(concat!($name, ".saturating_to"), &v, &if fits { wrapped } else { <$t>::MAX });
+        }
+    }};
+}
+
+fn uu_go<const B: usize, const L: usize, const D: usize, const LD: usize>(m: &mut Mon, a: &[u64]) {
+    let x: Uint<B, L> = uint(a);
+    let bv = big::big(a);
+    let fits = big::fits(&bv, D);
+    let wrapped = big::wrap(&bv, D);
+    m.obs(|| format!("dst_bits={D} fits={fits} wrapped={}", big::hex(&wrapped)));
+    // into the destination
+    if let Some(r) = m.must_in("uint_try_from", || <Uint<D, LD> as UintTryFrom<Uint<B, L>>>::uint_try_from(x)) {
+        match r {
+            Ok(v) => {
+                if m.eq("uint_try_from.ok", &true, &fits) {
+                    m.eq_uint("uint_try_from.value", &v, &wrapped);
+                }
+            }
+            Err(ToUintError::ValueTooLarge(b, v)) => {
+                m.eq("uint_try_from.err", &true, &!fits);
+                m.eq("uint_try_from.err-bits", &b, &D);
+                m.eq_uint("uint_try_from.payload", &v, &wrapped);
+            }
+            Err(e) => m.fail("uint_try_from.err-kind", "ValueTooLarge", &format!("{e:?}")),
+        }
+    }
+    if fits {
+        if let Some(v) = m.must_in("Uint::from(Uint)", || Uint::<D, LD>::from(x)) {
+            m.eq_uint("from", &v, &wrapped);
+        }
+        if let Some(v) = m.must_in("to::<Uint>", || x.to::<Uint<D, LD>>()) {
+            m.eq_uint("to", &v, &wrapped);
+        }
+    } else {
+        m.must_panic(|| Uint::<D, LD>::from(x), "source too large");
+        m.must_panic(|| x.to::<Uint<D, LD>>(), "source too large");
+    }
+    if let Some(v) = m.must_in("wrapping_from(Uint)", || Uint::<D, LD>::wrapping_from(x)) {
+        m.eq_uint("wrapping_from", &v, &wrapped);
+    }
+    if let Some(v) = m.must_in("saturating_from(Uint)", || Uint::<D, LD>::saturating_from(x)) {
+        m.eq_uint("saturating_from", &v, &if fits { wrapped.clone() } else { gen::max(D) });
+    }
+    if let Some(v) = m.must_in("wrapping_to::<Uint>", || x.wrapping_to::<Uint<D, LD>>()) {
+        m.eq_uint("wrapping_to", &v, &wrapped);
+    }
+    if let Some(v) = m.must_in("saturating_to::<Uint>", || x.saturating_to::<Uint<D, LD>>()) {
+        m.eq_uint("saturating_to", &v, &if fits { wrapped.clone() } else { gen::max(D) });
+    }
+    if let Some(r) = m.must_in("uint_try_to", || <Uint<B, L> as UintTryTo<Uint<D, LD>>>::uint_try_to(&x)) {
+        match r {
+            Ok(v) => {
+                if m.eq("uint_try_to.ok", &true, &fits) {
+                    m.eq_uint("uint_try_to.value", &v, &wrapped);
+                }
+            }
+            Err(FromUintError::Overflow(b, w, s)) => {
+                m.eq("uint_try_to.err", &true, &!fits);
+                m.eq("uint_try_to.err-bits", &b, &D);
+                m.eq_uint("uint_try_to.wrapped", &w, &wrapped);
+                m.eq_uint("uint_try_to.saturated", &s, &gen::max(D));
+            }
+        }
+    }
+}
+
+const UGRID: &[usize] = &[0, 1, 7, 8, 63, 64, 65, 127, 128, 129, 192, 255, 256, 257];
+
+macro_rules! uu_dispatch {
+    ([$($d:literal),*]) => {
+        fn uu<const B: usize, const L: usize>(m: &mut Mon, dst: usize, a: &[u64]) {
+            match dst {
+                $($d => uu_go::<B, L, $d, { ($d + 63) / 64 }>(m, a),)*
+                _ => panic!("harness: destination width {dst} not in grid"),
+            }
+        }
+        /// Source widths of the Uint -> Uint grid are the grid widths themselves
+        /// (kept out of the generic `exec` to bound compile time).
+        fn uu_src(m: &mut Mon, src: usize, dst: usize, a: &[u64]) {
+            match src {
+                $($d => uu::<$d, { ($d + 63) / 64 }>(m, dst, a),)*
+                _ => panic!("harness: source width {src} not in grid"),
+            }
+        }
+    };
+}
+uu_dispatch!([0, 1, 7, 8, 63, 64, 65, 127, 128, 129, 192, 255, 256, 257]);
+
+fn dispatch2(m: &mut Mon, bits: usize, op: &str, a: &[Arg]) {
+    if op == "uint_uint" {
+        m.nontrivial(big::big(a[0].u()) > BigUint::from(1u8));
+        uu_src(m, bits, a[1].us(), a[0].u());
+    } else {
+        dispatch(m, bits, op, a);
+    }
+}
+
+fn exec<const B: usize, const L: usize>(m: &mut Mon, op: &str, a: &[Arg]) {
+    match op {
+        "from.bool" => {
+            let v = a[0].n() != 0;
+            let bv = BigInt::from(u8::from(v));
+            let fits = big::fits(&bv.to_biguint().unwrap(), B);
+            let wrapped = wrap_signed(&bv, B);
+            m.nontrivial(v);
+            if let Some(r) = m.must_in("try_from", || Uint::<B, L>::try_from(v)) {
+                match r {
+                    Ok(x) => {
+                        if m.eq("try_from.ok", &true, &fits) {
+                            m.eq_uint("try_from.value", &x, &wrapped);
+                        }
+                    }
+                    Err(ToUintError::ValueTooLarge(b, x)) => {
+                        m.eq("try_from.err", &true, &!fits);
+                        m.eq("try_from.err-bits", &b, &B);
+                        m.eq_uint("try_from.too-large-payload", &x, &wrapped);
+                    }
+                    Err(e) => m.fail("try_from.err-kind", "ValueTooLarge", &format!("{e:?}")),
+                }
+            }
+            if let Some(x) = m.must_in("wrapping_from", || Uint::<B, L>::wrapping_from(v)) {
+                m.eq_uint("wrapping_from", &x, &wrapped);
+            }
+            if let Some(x) = m.must_in("saturating_from", || Uint::<B, L>::saturating_from(v)) {
+                m.eq_uint("saturating_from", &x, &if fits { wrapped.clone() } else { gen::max(B) });
+            }
+        }
+        "from.u8" => from_prim!(m, a, B, L, u8, a[0].n() as u8, 8),
+        "from.u16" => from_prim!(m, a, B, L, u16, a[0].n() as u16, 16),
+        "from.u32" => from_prim!(m, a, B, L, u32, a[0].n() as u32, 32),
+        "from.u64" => from_prim!(m, a, B, L, u64, a[0].n() as u64, 64),
+        "from.u128" => from_prim!(m, a, B, L, u128, a[0].n(), 128),
+        "from.usize" => from_prim!(m, a, B, L, usize, a[0].n() as usize, 64),
+        "from.i8" => from_prim!(m, a, B, L, i8, a[0].i() as i8, 8),
+        "from.i16" => from_prim!(m, a, B, L, i16, a[0].i() as i16, 16),
+        "from.i32" => from_prim!(m, a, B, L, i32, a[0].i() as i32, 32),
+        "from.i64" => from_prim!(m, a, B, L, i64, a[0].i() as i64, 64),
+        "from.i128" => from_prim!(m, a, B, L, i128, a[0].i(), 128),
+        "from.isize" => from_prim!(m, a, B, L, isize, a[0].i() as isize, 64),
+        "to_prims" => {
+            let x: Uint<B, L> = uint(a[0].u());
+            let bv = big::big(a[0].u());
+            m.nontrivial(bv > BigUint::from(1u8));
+            m.obs(|| format!("value={}", big::bhex(&bv)));
+            to_prim!(m, x, bv, B, u8, "u8");
+            to_prim!(m, x, bv, B, u16, "u16");
+            to_prim!(m, x, bv, B, u32, "u32");
+            to_prim!(m, x, bv, B, u64, "u64");
+            to_prim!(m, x, bv, B, u128, "u128");
+            to_prim!(m, x, bv, B, usize, "usize");
+            to_prim!(m, x, bv, B, i8, "i8");
+            to_prim!(m, x, bv, B, i16, "i16");
+            to_prim!(m, x, bv, B, i32, "i32");
+            to_prim!(m, x, bv, B, i64, "i64");
+            to_prim!(m, x, bv, B, i128, "i128");
+            to_prim!(m, x, bv, B, isize, "isize");
+            // bool
+            let fits = bv <= BigUint::from(1u8);
+            let low = !(bv.clone() % 2u8).is_zero();
+            if let Some(r) = m.must_in("bool.try_from", || bool::try_from(&x)) {
+                match r {
+                    Ok(v) => {
+                        if m.eq("bool.try.ok", &true, &fits) {
+                            m.eq("bool.try.value", &v, &low);
+                        }
+                    }
+                    Err(FromUintError::Overflow(b, w, s)) => {
+                        m.eq("bool.try.err", &true, &!fits);
+                        m.eq("bool.err-bits", &b, &B);
+                        m.eq("bool.err-wrapped", &w, &low);
+                        m.eq("bool.err-saturated", &s, &true);
+                    }
+                }
+            }
+            if let Some(v) = m.must_in("bool.wrapping_to", || x.wrapping_to::<bool>()) {
+                m.eq("bool.wrapping_to", &v, &low);
+            }
+            if let Some(v) = m.must_in("bool.saturating_to", || x.saturating_to::<bool>()) {
+                m.eq("bool.saturating_to", &v, &if fits { low } else { true });
+            }
+        }
+        "limbs_slice" => {
+            let s = a[0].u();
+            let bv = big::big(s);
+            let fits = big::fits(&bv, B);
+            let wrapped = big::wrap(&bv, B);
+            m.nontrivial(bv > BigUint::from(1u8));
+            m.obs(|| format!("slice_len={} fits={fits} wrapped={}", s.len(), big::hex(&wrapped)));
+            if let Some((v, f)) = m.must_in("overflowing_from_limbs_slice", || Uint::<B, L>::overflowing_from_limbs_slice(s)) {
+                m.eq_uint("overflowing_from_limbs_slice.value", &v, &wrapped);
+                m.eq("overflowing_from_limbs_slice.flag", &f, &!fits);
+            }
+            if let Some(v) = m.must_in("wrapping_from_limbs_slice", || Uint::<B, L>::wrapping_from_limbs_slice(s)) {
+                m.eq_uint("wrapping_from_limbs_slice", &v, &wrapped);
+            }
+            if let Some(v) = m.must_in("saturating_from_limbs_slice", || Uint::<B, L>::saturating_from_limbs_slice(s)) {
+                m.eq_uint("saturating_from_limbs_slice", &v, &if fits { wrapped.clone() } else { gen::max(B) });
+            }
+            if let Some(v) = m.must_in("checked_from_limbs_slice", || Uint::<B, L>::checked_from_limbs_slice(s)) {
+                match v {
+                    Some(v) => {
+                        if m.eq("checked_from_limbs_slice.some", &true, &fits) {
+                            m.eq_uint("checked_from_limbs_slice.value", &v, &wrapped);
+                        }
+                    }
+                    None => {
+                        m.eq("checked_from_limbs_slice.none", &true, &!fits);
+                    }
+                }
+            }
+            if fits {
+                if let Some(v) = m.must_in("from_limbs_slice", || Uint::<B, L>::from_limbs_slice(s)) {
+                    m.eq_uint("from_limbs_slice", &v, &wrapped);
+                }
+            } else {
+                m.must_panic(|| Uint::<B, L>::from_limbs_slice(s), "value too large");
+            }
+            if s.len() == L {
+                let mut arr = [0u64; L];
+                arr.copy_from_slice(s);
+                if fits {
+                    if let Some(v) = m.must_in("from_limbs", || Uint::<B, L>::from_limbs(arr)) {
+                        m.eq_uint("from_limbs", &v, &wrapped);
+                    }
+                } else {
+                    m.must_panic(|| Uint::<B, L>::from_limbs(arr), "value too large");
+                }
+            }
+        }
+        _ => panic!("harness: unknown op {op}"),
+    }
+}
+
+/// Candidate source values in [lo, hi]: boundaries of the type, powers of two and neighbours.
+fn candidates(lo: i128, hi_u: u128, bits: usize) -> Vec<i128> {
+    let mut out: Vec<i128> = vec![0, 1, -1, 2, -2, lo, lo.wrapping_add(1), 10, 100, 255, 256, -128, -129];
+    for k in 0..=127u32 {
+        let p = 1i128.checked_shl(k).unwrap_or(0);
+        let near = (k as i64 - bits as i64).abs() <= 2 || k % 8 == 0 || k % 8 == 7 || k <= 9 || [15, 16, 17, 31, 32, 33, 62, 63, 64, 65, 126, 127].contains(&k);
+        if !near {
+            continue;
+        }
+        for d in [-1i128, 0, 1] {
+            out.push(p.wrapping_add(d));
+            out.push(p.wrapping_neg().wrapping_add(d));
+        }
+    }
+    out.retain(|&v| v >= lo && (v < 0 || (v as u128) <= hi_u));
+    out.sort_unstable();
+    out.dedup();
+    out
+}
+
+fn workload(m: &mut Mon, bits: usize) {
+    // ---- primitive -> Uint
+    macro_rules! signed_src {
+        ($name:literal, $t:ty) => {{
+            for v in candidates(<$t>::MIN as i128, <$t>::MAX as u128, bits) {
+                if !m.keep() {
+                    continue;
+                }
+                m.case($name, bits, vec![Arg::I(v)]);
+            }
+        }};
+    }
+    macro_rules! unsigned_src {
+        ($name:literal, $t:ty) => {{
+            for v in candidates(0, <$t>::MAX as u128, bits) {
+                if !m.keep() {
+                    continue;
+                }
+                m.case($name, bits, vec![Arg::N(v as u128)]);
+            }
+            m.case($name, bits, vec![Arg::N(<$t>::MAX as u128)]);
+            m.case($name, bits, vec![Arg::N(<$t>::MAX as u128 - 1)]);
+        }};
+    }
+    m.case("from.bool", bits, vec![Arg::N(0)]);
+    m.case("from.bool", bits, vec![Arg::N(1)]);
+    unsigned_src!("from.u8", u8);
+    unsigned_src!("from.u16", u16);
+    unsigned_src!("from.u32", u32);
+    unsigned_src!("from.u64", u64);
+    unsigned_src!("from.u128", u128);
+    unsigned_src!("from.usize", usize);
+    signed_src!("from.i8", i8);
+    signed_src!("from.i16", i16);
+    signed_src!("from.i32", i32);
+    signed_src!("from.i64", i64);
+    signed_src!("from.i128", i128);
+    signed_src!("from.isize", isize);
+    // exhaustive 8-bit sources
+    for v in 0..=255u32 {
+        if !m.keep() {
+            continue;
+        }
+        m.case("from.u8", bits, vec![Arg::N(v.into())]);
+        m.case("from.i8", bits, vec![Arg::I(i128::from(v as u8 as i8))]);
+    }
+    if !m.is_light() {
+        m.mark_exhaustive(format!("BITS={bits}: all 256 values of u8 and of i8 as conversion sources"));
+    }
+    // u128 values with structured high limb (2 limb types with a partial mask)
+    let mut r = m.stream("c07.prims", bits);
+    for i in 0..m.iters(1500) {
+        if i % 256 == 0 && m.time_up() {
+            break;
+        }
+        let hi = gen::alpha_limb(&mut r);
+        let lo = gen::alpha_limb(&mut r);
+        let v = (u128::from(hi) << 64) | u128::from(lo);
+        m.case("from.u128", bits, vec![Arg::N(v)]);
+        m.case("from.i128", bits, vec![Arg::I(v as i128)]);
+        m.case("from.u64", bits, vec![Arg::N(u128::from(lo))]);
+        m.case("from.i64", bits, vec![Arg::I(i128::from(lo as i64))]);
+        m.case("from.u32", bits, vec![Arg::N(u128::from(lo as u32))]);
+        m.case("from.i32", bits, vec![Arg::I(i128::from(lo as i32))]);
+        m.case("from.u16", bits, vec![Arg::N(u128::from(lo as u16))]);
+        m.case("from.i16", bits, vec![Arg::I(i128::from(lo as i16))]);
+        m.case("from.usize", bits, vec![Arg::N(u128::from(lo))]);
+        m.case("from.isize", bits, vec![Arg::I(i128::from(lo as i64))]);
+    }
+    // ---- Uint -> primitive, Uint -> Uint
+    let mut vals = gen::boundary(bits);
+    for k in [7usize, 8, 15, 16, 31, 32, 63, 64, 127, 128] {
+        for d in 0..3 {
+            let mut v = gen::pow2(k, bits);
+            if !gen::is_zero(&v) && d == 1 {
+                v[0] |= 1;
+            }
+            if d == 2 {
+                v = gen::ones(k, bits);
+            }
+            vals.push(v);
+        }
+    }
+    for &dst in UGRID {
+        for d in 0..3usize {
+            vals.push(match d {
+                0 => gen::pow2(dst, bits),
+                1 => gen::ones(dst, bits),
+                _ => {
+                    let mut v = gen::pow2(dst, bits);
+                    if !v.is_empty() {
+                        v[0] |= 1;
+                    }
+                    gen::canon(v, bits)
+                }
+            });
+        }
+    }
+    vals.sort();
+    vals.dedup();
+    for v in &vals {
+        if !m.keep() {
+            continue;
+        }
+        m.case("to_prims", bits, vec![au(v)]);
+        if UGRID.contains(&bits) {
+            for &dst in UGRID {
+                m.case("uint_uint", bits, vec![au(v), an(dst)]);
+            }
+        }
+    }
+    let mut r = m.stream("c07.uint", bits);
+    let iters = m.iters(if bits <= 256 { 2500 } else { 800 });
+    for i in 0..iters {
+        if i % 256 == 0 && m.time_up() {
+            break;
+        }
+        let v = gen::hostile(&mut r, bits);
+        m.case("to_prims", bits, vec![au(&v)]);
+        if UGRID.contains(&bits) {
+            m.case("uint_uint", bits, vec![au(&v), an(*r.pick(UGRID))]);
+        }
+    }
+    // ---- limb slices of every length 0..=LIMBS+2
+    let l = gen::nlimbs(bits);
+    let mut r = m.stream("c07.slices", bits);
+    let reps = m.iters(if l <= 8 { 60 } else { 12 });
+    for len in 0..=l + 2 {
+        if l > 16 && len > 3 && len + 4 < l {
+            continue;
+        }
+        for k in 0..reps {
+            if !m.keep() {
+                continue;
+            }
+            let mut s = gen::slice(&mut r, len);
+            // steer the limb at index LIMBS-1 around the mask
+            if l > 0 && len >= l {
+                match k % 6 {
+                    0 => s[l - 1] = gen::mask(bits),
+                    1 => s[l - 1] = gen::mask(bits).wrapping_add(1),
+                    2 => s[l - 1] &= gen::mask(bits),
+                    3 => {
+                        s[l - 1] &= gen::mask(bits);
+                        for x in &mut s[l..] {
+                            *x = 0;
+                        }
+                    }
+                    4 => {
+                        s[l - 1] &= gen::mask(bits);
+                        if len > l {
+                            for x in &mut s[l..] {
+                                *x = 0;
+                            }
+                            s[len - 1] = 1;
+                        }
+                    }
+                    _ => {}
+                }
+            }
+            m.case("limbs_slice", bits, vec![au(&s)]);
+        }
+    }
+}
+
+fn main() {
+    let mut m = Mon::new("C07", dispatch2);
+    if !m.replay_if_requested() {
+        for &bits in WIDTHS {
+            if m.width_enabled(bits) {
+                workload(&mut m, bits);
+            }
+        }
+    }
+    m.finish();
+}
